@@ -24,7 +24,7 @@ from harness.core import st
 from harness.oracles import snapshot
 
 ID = "C11"
-RULE = ("11 base types x all wrapper chains of length <= 2 x 7 positions + 6 'next to the bare type' positions (wrappers declared "
+RULE = ("11 base types x all wrapper chains of length <= 2 x 8 positions + 6 'next to the bare type' positions (wrappers declared "
         "in the defining or in another module; chains <= 2 for named bases, 1 otherwise) (exhaustive), chains of length 3 and random "
         "bases of U sampled; 9 inputs per program; root-position string / ForwardRef / bare-name-from-frame-depth forms; "
         "non-trivial = chain length >= 2, non-root position, or a non-object reference form; distinct by (base, chain, "
@@ -32,15 +32,15 @@ RULE = ("11 base types x all wrapper chains of length <= 2 x 7 positions + 6 'ne
 ASSUMPTIONS = ["Final only at the root and on class fields, ClassVar only at the root, NewType never directly over Optional/Union/Literal/TypedDict",
                "a partially qualified reference is not a resolvable reference and is not generated"]
 TECHNIQUE = "exhaustive enumeration of wrapper chains x positions + Hypothesis sampling; differential (metamorphic) oracle: routines for W(T) vs T on identical inputs, compared by class-exact snapshots"
-LEVEL_TEXT = ("All wrapper chains up to length 2 over 11 base types in 7 positions are enumerated on every run, longer chains and "
+LEVEL_TEXT = ("All wrapper chains up to length 2 over 11 base types in 8 positions are enumerated on every run, longer chains and "
               "random bases are sampled; each wrapped program is compared with the unwrapped one on valid, wire-form, corrupted "
               "and junk inputs through marshal, unmarshal and codec.")
 LEVEL_NOTE = "trusts that materialising both programs under identical module names makes class-exact snapshots comparable"
-EXHAUSTIVE_NOTE = "chains of length <= 2 x 11 bases x 7 positions, plus the 6 next-to-bare positions, complete on every run"
+EXHAUSTIVE_NOTE = "chains of length <= 2 x 11 bases x 8 positions, plus the 6 next-to-bare positions, complete on every run"
 
 S = U.S
 WRAPPERS = ["newtype", "alias", "stralias", "final", "classvar"]
-POSITIONS = ["root", "list", "dictval", "tuple", "union", "field", "sigfield"]
+POSITIONS = ["root", "list", "dictval", "tuple", "union", "field", "sigfield", "fieldd"]
 # the wrapped type *next to the bare type* (which the walk reaches first), the wrappers declared in the defining
 # module or in another module ("...x"): tuple[T, W], tuple[T, Union[W, None]], fields `a: T; x: W`
 POSITIONS2 = ["tuple2", "tuple2x", "union2", "union2x", "field2", "field2x"]
@@ -67,9 +67,11 @@ def bases():
 
 def valid_chain(chain, base, position):
     """chain: inner -> outer"""
+    if position == "fieldd" and U.default_src(base) is None:
+        return False   # no immutable canonical default for this base type
     for i, w in enumerate(chain):
         outer = i == len(chain) - 1
-        if w == "final" and not (outer and position in ("root", "field", "field2", "field2x")):
+        if w == "final" and not (outer and position in ("root", "field", "fieldd", "field2", "field2x")):
             return False
         if w == "classvar" and not (outer and position == "root"):
             return False
@@ -129,6 +131,12 @@ def embed(spec, position, base=None):
         # a class whose fields are only declared by the (text) annotations of its constructor's signature
         return {"k": "class", "name": "Holder", "mod": 0, "flavour": "sigonly", "future": False,
                 "fields": [{"n": "x", "t": spec}, {"n": "y", "t": S("int"), "default": True}]}
+    if position == "fieldd":
+        # a field with a default value (the default is then also an attribute of the class), after a field without
+        final = spec["k"] == "final"
+        inner = spec["a"][0] if final else spec
+        return {"k": "class", "name": "Holder", "mod": 0, "flavour": "dataclass", "future": False,
+                "fields": [{"n": "y", "t": S("int")}, {"n": "x", "t": inner, "default": True, **({"final": True} if final else {})}]}
     if position == "field":
         final = spec["k"] == "final"
         return {"k": "class", "name": "Holder", "mod": 0, "flavour": "dataclass", "future": False,
@@ -427,6 +435,44 @@ def check_local(col, counter):
                 _sys.modules.pop(name, None)
 
 
+def check_late_definition(col):
+    """A string-valued alias / ForwardRef is used before the class it names has been declared (the call fails, the caller
+    handles it), the class is declared, the same wrapper again: it must now behave exactly like the class itself."""
+    from harness import late
+    vals = {"ItemAlias": ("Item", lambda m: m.Item("a", 2), {"sku": "b", "qty": "3"}), "ItemRef": ("Item", lambda m: m.Item("a", 2), {"sku": "b", "qty": "3"}),
+            "ItemList": ("list[Item]", lambda m: [m.Item("a", 2)], [{"sku": "b", "qty": "3"}]), "LazyItems": ("list[Item]", lambda m: [m.Item("a", 2)], [{"sku": "b"}]),
+            "LazyMap": ("dict[str, Item]", lambda m: {"k": m.Item("a", 2)}, {"k": {"sku": "b", "qty": "3"}})}
+    for name, (plain_expr, mkval, wire) in vals.items():
+        for early in (("unmarshal",), ("marshaller", "unmarshaller"), ("codec",), ("unmarshal", "marshaller", "unmarshal")):
+            tl.clear_all()
+            tp_ = late.TwoPhase("c11")
+            try:
+                W = tp_.mod.__dict__[name]
+                for op in early:   # phase 1: fails, handled
+                    tl.call(tl.unmarshal, W, wire) if op == "unmarshal" else tl.call(getattr(tl, op), W)
+                tp_.declare()
+                T = eval(plain_expr, dict(tp_.mod.__dict__))  # noqa: S307
+                v = mkval(tp_.mod)
+                outs = {}
+                for label, X in (("wrapped", tp_.mod.__dict__[name]), ("plain", T)):
+                    o = {"marshal": _o(tl.call(tl.marshal, v, t=X)), "unmarshal": _o(tl.call(tl.unmarshal, X, wire)),
+                         "unmarshal-junk": _o(tl.call(tl.unmarshal, X, {"zz": 1} if isinstance(wire, dict) else [{"zz": 1}])),
+                         "encode": _o(tl.call(lambda: tl.codec(X).encode(v)))}
+                    o["decode"] = _o(tl.call(lambda: tl.codec(X).decode(tl.codec(X).encode(v))))
+                    outs[label] = o
+                col.ev()
+                col.nt(f"late|{name}|{early}")
+                col.label("late-definition")
+                for k in outs["plain"]:
+                    if outs["plain"][k] != outs["wrapped"][k]:
+                        col.violation("transparent", {"late": name, "early_ops": list(early)},
+                                      f"{name} first used before its target class existed (ops {early}), then after: {k}: wrapped -> {_s(outs['wrapped'][k])}, "
+                                      f"{plain_expr} itself -> {_s(outs['plain'][k])}", bucket=f"late-definition|{name}|{k}")
+                        break
+            finally:
+                tp_.close()
+
+
 def all_chains(maxlen):
     for n in range(1, maxlen + 1):
         yield from itertools.product(WRAPPERS, repeat=n)
@@ -447,6 +493,7 @@ def exhaustive_cases():
 def plan(tier, seed):
     shards = [{"kind": "exh", "mod": 12, "rem": i, "seed": seed * 1000 + i} for i in range(12)]
     shards.append({"kind": "local", "seed": seed * 1000 + 40})
+    shards.append({"kind": "late-definition", "seed": seed * 1000 + 41})
     for i in range(4):
         shards.append({"kind": "sample", "seed": seed * 1000 + 50 + i, "n": 120 if tier == "quick" else 1500})
     return shards
@@ -456,6 +503,10 @@ def run_shard(shard, col):
     counter = itertools.count(shard["seed"] * 100000)
     if shard["kind"] == "local":
         check_local(col, counter)
+        col.exhaustive_done = True
+        return
+    if shard["kind"] == "late-definition":
+        check_late_definition(col)
         col.exhaustive_done = True
         return
     if shard["kind"] == "exh":
@@ -502,6 +553,9 @@ def replay(clause, case, col):
     counter = itertools.count(987000)
     if case.get("local"):
         check_local(col, counter)
+        return
+    if case.get("late"):
+        check_late_definition(col)
         return
     base, chain, pos = case["base_spec"], tuple(case["chain"]), case["position"]
     tag = f"c11_{next(counter)}"
